@@ -16,9 +16,15 @@ RULE = ("union workload: (a) hostile templates x random extreme values: INT/LONG
         "one name, objects alive at exit in locals/statics/arrays/fields/cycles, errors raised inside "
         "constructors, destructors, field initialisers and nested calls, out-of-range literals, "
         "recursion depth <= 100, <= 12 qubits, derived-before-base order; (b) the random classical "
-        "programs of C07; (c) the quantum programs of C01-C06 incl. measured-qubit misuse. Distinct = "
+        "programs of C07; (c) the quantum programs of C01-C06 incl. measured-qubit misuse; (d) C08 class programs; (e) "
+        "edits of a quarter of (a)-(d) that the real analyser still accepts (extreme literal in place of a "
+        "literal, neighbouring operator, another identifier of the program, a widened/narrowed declared "
+        "type, a statement dropped or repeated), executed with a 20 s cut-off. Distinct = "
         "distinct program texts; non-trivial = accepted by the analyser (executed).")
-ASSUMPTIONS = ["value-UB reports (signed overflow, float-cast overflow, shifts) are counted, not violations: "
+ASSUMPTIONS = ["edited programs (family e) that run longer than 20 s are cut off and counted, not judged: an edit "
+               "can turn a loop into an endless one; likewise an edit that makes a recursion deeper than the stack "
+               "(the property bounds recursion depth) is counted, not judged",
+               "value-UB reports (signed overflow, float-cast overflow, shifts) are counted, not violations: "
                "C12 lists signals, memory corruption and raw exceptions",
                "recursion depth <= 100 and <= 12 qubits (the property's stated bounds); stack limit 1 GiB",
                "LeakSanitizer is off: the cycle collector leaks by design when it never runs"]
@@ -157,6 +163,84 @@ def hostile_programs(rng):
     return out
 
 
+INT_EXTREMES = ["0", "1", "2", "31", "32", "63", "64", "2147483647", "2147483646", "(-1)", "(-2147483647 - 1)", "65536"]
+OP_CLASSES = [["+", "-", "*", "/", "%"], ["<", ">", "<=", ">=", "==", "!="], ["&&", "||"], ["&", "|", "^"],
+              ["++", "--"], ["+=", "-=", "*=", "/="]]
+TYPE_SWAPS = {"int": ["long", "float", "bit"], "long": ["int"], "float": ["int", "long"], "bit": ["int", "boolean"],
+              "boolean": ["bit"]}
+KEYWORDS = set("""int long float bit boolean string char qubit void class function return if else for while new
+    null this super final static public private protected virtual override abstract extends import package
+    constructor destructor destroy default measure reset echo true false""".split())
+
+
+def mutate_accepted(src, spans, rng, count):
+    """Small edits of an accepted program that tend to stay accepted but steer execution somewhere the
+    generator never goes: extreme literals, neighbouring operators, another variable of the program in
+    place of this one, a widened/narrowed declared type, a dropped or repeated statement."""
+    toks = [(a, b, src[a:b]) for a, b in spans]
+    idents = sorted({t for _, _, t in toks if re.match(r"^[A-Za-z_]\w*$", t) and t not in KEYWORDS})
+    out = []
+    tries = 0
+    while len(out) < count and tries < count * 6 and toks:
+        tries += 1
+        k = rng.randrange(len(toks))
+        a, b, t = toks[k]
+        kind = None
+        rep = None
+        if re.match(r"^\d+$", t):
+            rep, kind = rng.choice(INT_EXTREMES), "lit"
+        elif re.match(r"^\d+L$", t):
+            rep, kind = rng.choice(["0L", "9223372036854775807L", "(-9223372036854775807L - 1L)", "(-1L)", "4294967296L"]), "lit"
+        elif re.match(r"^\d*\.\d+f?$", t):
+            rep, kind = rng.choice(["0.0f", "-0.0f", "3.4e38f", "1.0e-30f", "1.0e30f"]), "lit"
+        elif t in TYPE_SWAPS and rng.random() < 0.5:
+            rep, kind = rng.choice(TYPE_SWAPS[t]), "type"
+        elif t in idents and len(idents) > 1 and rng.random() < 0.5:
+            rep, kind = rng.choice([i for i in idents if i != t]), "ident"
+        elif t == ";" and rng.random() < 0.4:
+            # drop or repeat the statement that ends here (back to the previous ; { or })
+            j = k - 1
+            while j >= 0 and toks[j][2] not in (";", "{", "}"):
+                j -= 1
+            if j >= 0 and k - j > 1:
+                sa = toks[j + 1][0]
+                if rng.random() < 0.5:
+                    out.append(("drop@%d" % k, src[:sa] + src[b:]))
+                else:
+                    out.append(("again@%d" % k, src[:b] + " " + src[sa:b] + src[b:]))
+            continue
+        else:
+            for cls in OP_CLASSES:
+                if t in cls:
+                    rep, kind = rng.choice([o for o in cls if o != t]), "op"
+        if rep is None or rep == t:
+            continue
+        out.append(("%s@%d:%s" % (kind, k, rep), src[:a] + rep + src[b:]))
+    return out
+
+
+def mutated_jobs(ctx, seeds, per_seed):
+    """seeds: list of (tag, src, env).  Returns jobs for the edits the real analyser still accepts."""
+    from .. import front
+    from .c13 import token_spans
+    res = front.run_batch("tokens", [s for _, s, _ in seeds])
+    cands = []
+    for (tag, src, env), r in zip(seeds, res):
+        toks = [t for t in r["lines"] if isinstance(t, dict) and "t" in t]
+        spans = token_spans(src, toks)
+        for name, text in mutate_accepted(src, spans, ctx.rng("mut/" + tag), per_seed):
+            cands.append((tag + ":" + name, text, env))
+    verdicts = front.run_batch("analyse", [c[1] for c in cands])
+    jobs = []
+    for (tag, text, env), v in zip(cands, verdicts):
+        ctx.count("edits_tried")
+        first = next((l for l in v["lines"] if isinstance(l, dict) and "accepted" in l), None)
+        if v["crash"] is None and first is not None and first["accepted"]:
+            ctx.count("edits_still_accepted")
+            jobs.append(("edited:" + tag, text, dict(kind="edited", tag=tag), env))
+    return jobs
+
+
 def classify_and_report(ctx, tag, src, r, case):
     cls = r.classify()
     files = {"prog.bloch": src, "stderr.txt": r.stderr[-12000:], "stdout.txt": r.stdout[-2000:]}
@@ -178,11 +262,17 @@ def classify_and_report(ctx, tag, src, r, case):
         return False
     if cls[0] == "sanitizer":
         key = cls[1]
+        if case.get("kind") == "edited" and key.startswith("asan:stack-overflow"):
+            ctx.count("edited_programs_recursing_past_the_bound")   # the property bounds recursion depth
+            return False
     elif cls[0] == "signal":
         key = "signal:%d:%s" % (cls[1], "<-".join(core._bloch_frames(r.stderr)) or "?")
     elif cls[0] == "raw":
         key = "raw:" + re.sub(r"[^A-Za-z_:]", "", cls[1])[:40]
     elif cls[0] == "timeout":
+        if case.get("kind") == "edited":
+            ctx.count("edited_programs_cut_off")     # an edit may legitimately loop for ever
+            return False
         ctx.inconclusive_because("%s timed out twice" % tag)
         return True
     else:
@@ -217,9 +307,22 @@ def run(ctx):
     except ImportError:
         pass
 
+    seeds = []
+    stride = {"hostile": 1, "classical": 4, "quantum": 4, "classes": 4}
+    seen = {}
+    for tag, src, case, env in jobs:
+        k = case["kind"]
+        seen[k] = seen.get(k, 0) + 1
+        if seen[k] % stride[k] == 0:
+            seeds.append((tag, src, env))
+    jobs += mutated_jobs(ctx, seeds, ctx.n(6, 24))
+
     def one(job):
         tag, src, case, env = job
-        r, _, _, _ = core.run_bloch(binary, src, env=env, timeout=60)
+        if case["kind"] == "edited":
+            r, _, _, _ = core.run_bloch(binary, src, env=env, timeout=20, cpu_s=20, retry_timeout=False)
+        else:
+            r, _, _, _ = core.run_bloch(binary, src, env=env, timeout=60)
         return job, r
 
     for (tag, src, case, env), r in core.pmap(one, jobs):
@@ -242,6 +345,9 @@ def replay(ctx, data):
         src = make_program(ctx.rng("c07-%d" % case["index"]))[1]
     elif case["kind"] == "quantum":
         src = qlang.generate(ctx.rng("q-%d" % case["index"]), case["profile"])[1]
+    if src is None and os.path.exists(p):
+        with open(p) as f:
+            src = f.read()
     r, _, _, _ = core.run_bloch(binary, src, timeout=60)
     print(src[-1500:])
     print(r.classify())
